@@ -12,6 +12,7 @@
   language) is checked with a fake proofreader on generated documents.
 -/
 import YalafiVerif.Proofs.Shell
+import YalafiVerif.Proofs.Reports
 namespace Yalafi
 
 theorem C14_mapMatch_word (cm : List Int) (latex : Str) (o l : Nat) (c : Int)
@@ -45,5 +46,162 @@ example : Contiguous [5, 6, 7, 9] 0 3 := by
   | 0, _ => rfl
   | 1, _ => rfl
   | 2, _ => rfl
+
+end Yalafi
+
+/-
+  Position arithmetic of the reports (Model/Reports.lean, Proofs/Reports.lean; tied to
+  gentext.py / genjson.py / genxml.py / tex2txt.translate_numbers by harness/corr_reports.py):
+  the text report's (line, column) is THE line and column of the reported offset; JSON `priv`,
+  XML and the text report name the same place; the byte columns of `xml-b` are the UTF-8 lengths
+  of the same slices; the HTML highlight begins (and, for a sure match, ends) at the reported
+  offset and is titled with the reported line; `translate_numbers` (editor interfaces) maps a
+  plain (line, column) to the place of `charmap[p]`.
+-/
+namespace Yalafi
+open Reports Html
+
+/-- (a) On a natural offset the text report is `textLineCol`, and that pair is THE line and column
+    of the character at `offset`: line `lin` exists, it begins at `starts[lin-1]`, the offset lies
+    `col-1` characters behind that begin and no line break lies in between; any pair with these
+    properties is the reported one.  (Holds for every offset, also behind the end of the text —
+    the column then passes the end of the last line; that case is C15's.) -/
+theorem C14_linecol_roundtrip (tex : Str) (offset : Nat) :
+    let lc := textLineCol tex offset
+    let starts := getLineStarts tex
+    textReport tex (offset : Int) = ((lc.1 : Int), (lc.2 : Int)) ∧
+    1 ≤ lc.1 ∧ lc.1 ≤ starts.length ∧ 1 ≤ lc.2 ∧
+    starts.getD (lc.1 - 1) 0 + (lc.2 - 1) = offset ∧
+    '\n' ∉ slice tex (starts.getD (lc.1 - 1) 0) offset ∧
+    ∀ l c, 1 ≤ l → l ≤ starts.length → 1 ≤ c → starts.getD (l - 1) 0 + (c - 1) = offset →
+      '\n' ∉ slice tex (starts.getD (l - 1) 0) offset → (l, c) = lc :=
+  ⟨textReport_nat tex offset, linecol_roundtrip tex offset⟩
+
+/-- (b) JSON `priv`, XML and the text report describe the same place, for every offset and length
+    (all ints): `fromy + 1 = lin`, `fromx + 1 = col`; `(toy + 1, tox)` is what the text report
+    would print for the last character `offset + length - 1` (0-based exclusive = 1-based inclusive
+    column) — for a natural end `e` therefore THE line and column of `e` by (a); XML without
+    `-b` carries the same four numbers as JSON, XML with `-b` the same lines -/
+theorem C14_formats_agree (tex : Str) (offset length : Int) :
+    let t := textReport tex offset
+    let j := jsonPriv tex offset length
+    j.fromy + 1 = t.1 ∧ j.fromx + 1 = t.2 ∧
+    (j.toy + 1, j.tox) = textReport tex (offset + length - 1) ∧
+    (∀ e : Nat, offset + length - 1 = e → (j.toy + 1, j.tox) = (((textLineCol tex e).1 : Int), ((textLineCol tex e).2 : Int))) ∧
+    xmlReport tex false offset length = j ∧
+    (xmlReport tex true offset length).fromy = j.fromy ∧ (xmlReport tex true offset length).toy = j.toy := by
+  have ⟨a, b, c, d, e, f⟩ := formats_agree tex offset length
+  exact ⟨a, b, c, fun n hn => by rw [← textReport_nat, ← hn]; exact c, d, e, f⟩
+
+/-- on natural offset and length ≥ 1 the Int model is `xmlFields` of Model/Shell.lean -/
+theorem C14_jsonPriv_nat (tex : Str) (o l : Nat) (hl : 1 ≤ l) :
+    jsonPriv tex (o : Int) (l : Int) =
+      { fromy := ((xmlFields tex o l).1 : Nat), fromx := ((xmlFields tex o l).2.1 : Nat),
+        toy := ((xmlFields tex o l).2.2.1 : Nat), tox := ((xmlFields tex o l).2.2.2 : Nat) } :=
+  jsonPriv_nat tex o l hl
+
+/-- (b, HTML) under the same map the HTML report (`Html.computeH`, any match it accepts) begins its
+    highlight at the offset that `map_match_position` delivers to the other reports (and to the
+    server emulation), and titles it with the same line -/
+theorem C14_html_agrees (T : Tables) (tex : Str) (cm : List Int) (idx : Nat) (o l : Int) (h : HData) (r : Int × Int)
+    (hh : computeH T tex cm idx o l = .ok h) (hm : mapMatch cm tex o (some (.int l)) = .ok r) :
+    h.beg = r.1 ∧ (h.lin : Int) = (jsonPriv tex r.1 r.2).fromy ∧ (h.lin : Int) + 1 = (textReport tex r.1).1 :=
+  html_agrees T tex cm idx o l h r hh hm
+
+/-- (b, HTML) for a sure match (no negative map entries), `length ≥ 1`, positive mapped length, the
+    highlight also ends at `offset + length` of the JSON report, macro-name correction included -/
+theorem C14_html_end_agrees (T : Tables) (tex : Str) (cm : List Int) (idx : Nat) (o l : Int) (h : HData) (r : Int × Int)
+    (hh : computeH T tex cm idx o l = .ok h) (hm : mapMatch cm tex o (some (.int l)) = .ok r)
+    (hsure : ∀ c ∈ cm, 0 ≤ c) (hl : 1 ≤ l) (hr : 1 ≤ r.2) :
+    h.unsure = false ∧ (h.fin : Int) = r.1 + r.2 :=
+  html_end_agrees T tex cm idx o l h r hh hm hsure hl hr
+
+/-- (c) `--output xml-b`, begin of the match at `b ≤ len(tex)`: the byte column is the UTF-8 length
+    of the slice `tex[nl:b]` whose character length is the character column; they are equal iff
+    the slice is ASCII; `fromx ≤ fromxB ≤ 4 * fromx` -/
+theorem C14_xmlb_bytes (tex : Str) (b : Nat) (len : Int) (hb : b ≤ tex.length) :
+    let s := slice tex (lastLineStart (tex.take b)) b
+    (xmlReport tex true b len).fromx = utf8Size s ∧
+    (xmlReport tex false b len).fromx = s.length ∧
+    (xmlReport tex false b len).fromx ≤ (xmlReport tex true b len).fromx ∧
+    (xmlReport tex true b len).fromx ≤ 4 * (xmlReport tex false b len).fromx ∧
+    ((xmlReport tex true b len).fromx = (xmlReport tex false b len).fromx ↔ ∀ c ∈ s, c.toNat < 128) :=
+  xmlb_from tex b len hb
+
+/-- (c) the same for the end of the match, last character `e = b + len - 1 < len(tex)`: slice
+    `tex[nl:e+1]` -/
+theorem C14_xmlb_bytes_end (tex : Str) (b len : Int) (e : Nat) (he : b + len - 1 = e) (hlt : e < tex.length) :
+    let s := slice tex (lastLineStart (tex.take e)) (e + 1)
+    (xmlReport tex true b len).tox = utf8Size s ∧
+    (xmlReport tex false b len).tox = s.length ∧
+    (xmlReport tex false b len).tox ≤ (xmlReport tex true b len).tox ∧
+    (xmlReport tex true b len).tox ≤ 4 * (xmlReport tex false b len).tox ∧
+    ((xmlReport tex true b len).tox = (xmlReport tex false b len).tox ↔ ∀ c ∈ s, c.toNat < 128) :=
+  xmlb_to tex b len e he hlt
+
+/-- (f) `translate_numbers` (plain (line, column) ↦ LaTeX (line, column), used by the editor
+    interfaces): whenever it answers, `p = starts[lin-1] + col-1` is a character of the plain text
+    on that line (with `starts = get_line_starts(plain)`: THE character at line `lin`, column
+    `col`), `p` is covered by the map, `flag = (charmap[p] < 0)`, and for `n = |charmap[p]|`
+    (1-based position in the LaTeX text) the answer is the line and column — in the sense of (a) —
+    of the character `n - 1`; except that a LINE BREAK of the LaTeX text is reported as column 1
+    of the following line, and the entry `0` as `(1, 1)` -/
+theorem C14_translate_numbers (tex plain : Str) (cm : List Int) (starts : List Nat) (lin col : Int) (r : TNum)
+    (h : translateNumbers tex plain cm starts lin col = some r) :
+    1 ≤ lin ∧ lin ≤ starts.length ∧ 1 ≤ col ∧
+    ∃ n0 c, starts[(lin - 1).toNat]? = some n0 ∧
+      n0 + (col - 1).toNat < plain.length ∧
+      '\n' ∉ slice plain n0 (n0 + (col - 1).toNat + 1) ∧
+      (starts = getLineStarts plain → textLineCol plain (n0 + (col - 1).toNat) = (lin.toNat, col.toNat)) ∧
+      cm[n0 + (col - 1).toNat]? = some c ∧ c.natAbs ≤ tex.length ∧ r.flag = decide (c < 0) ∧
+      (c.natAbs = 0 → (r.lin, r.col) = (1, 1)) ∧
+      (1 ≤ c.natAbs → tex[c.natAbs - 1]? ≠ some '\n' → (r.lin, r.col) = textLineCol tex (c.natAbs - 1)) ∧
+      (1 ≤ c.natAbs → tex[c.natAbs - 1]? = some '\n' → (r.lin, r.col) = ((textLineCol tex (c.natAbs - 1)).1 + 1, 1)) := by
+  have ⟨a1, a2, a3, n0, c, b1, b2, b3, b4, b5, b6, b7, b8, b9⟩ := translate_numbers_some tex plain cm starts lin col r h
+  have ⟨p1, p2, p3⟩ := translate_position tex c.natAbs b6
+  rw [← b8, ← b9] at p1 p2 p3
+  exact ⟨a1, a2, a3, n0, c, b1, b2, b3, b4, b5, b6, b7, p1, p2, p3⟩
+
+/-- (f) `translate_numbers` returns `None` exactly in the documented cases -/
+theorem C14_translate_numbers_none (tex plain : Str) (cm : List Int) (starts : List Nat) (lin col : Int) :
+    translateNumbers tex plain cm starts lin col = none ↔
+      lin < 1 ∨ col < 1 ∨ lin > (starts.length : Int) ∨
+      ∃ n0, starts[(lin - 1).toNat]? = some n0 ∧
+        (col > ((lineAt plain n0).length : Int) ∨ n0 + (col - 1).toNat ≥ cm.length ∨
+         ∃ c, cm[n0 + (col - 1).toNat]? = some c ∧ c.natAbs > tex.length) :=
+  translate_numbers_none tex plain cm starts lin col
+
+/-! non-vacuity: a three-line text with non-ASCII characters, `aä\n€b c\nxy\n`
+    (offsets: a0 ä1 \n2 €3 b4 ' '5 c6 \n7 x8 y9 \n10) -/
+
+/-- the word `b c` (offset 4, length 3) on line 2: text report, JSON, XML, XML-b (the `€` in front
+    takes 3 bytes) -/
+example : locate "aä\n€b c\nxy\n".toList 4 3 =
+    { offset := 4, length := 3, lin := 2, col := 2,
+      json := ⟨1, 1, 1, 4⟩, xml := ⟨1, 1, 1, 4⟩, xmlb := ⟨1, 3, 1, 6⟩ } := by decide
+
+/-- a match that spans a line break: `ä\n€` -/
+example : jsonPriv "aä\n€b c\nxy\n".toList 1 3 = ⟨0, 1, 1, 1⟩ := by decide
+
+example : getLineStarts "aä\n€b c\nxy\n".toList = [0, 3, 8, 11] := by decide
+
+/-- through a map: plain text `ab c` copied from offsets 0, 4, 5, 6 (+1) -/
+example : reportAll [1, 5, 6, 7, 7, 7] "aä\n€b c\nxy\n".toList 1 (some (.int 3)) =
+    .ok { offset := 4, length := 3, lin := 2, col := 2,
+          json := ⟨1, 1, 1, 4⟩, xml := ⟨1, 1, 1, 4⟩, xmlb := ⟨1, 3, 1, 6⟩ } := by decide
+
+/-- `translate_numbers`: plain `ab c\nxy`, line 2 column 2 (`y`) ↦ LaTeX line 3 column 2;
+    line 1 column 2 (`b`, unsure) ↦ line 2 column 2 with flag; column behind the line ↦ `None` -/
+example : translateNumbers "aä\n€b c\nxy\n".toList "ab c\nxy".toList [1, -5, 6, 7, 8, 9, 10] [0, 5] 2 2
+    = some { lin := 3, col := 2, flag := false } := by decide
+example : translateNumbers "aä\n€b c\nxy\n".toList "ab c\nxy".toList [1, -5, 6, 7, 8, 9, 10] [0, 5] 1 2
+    = some { lin := 2, col := 2, flag := true } := by decide
+example : translateNumbers "aä\n€b c\nxy\n".toList "ab c\nxy".toList [1, -5, 6, 7, 8, 9, 10] [0, 5] 1 5 = none := by decide
+/-- a map entry that points to a line break of the LaTeX text (`\n` at offset 7, entry 8):
+    reported as column 1 of the following line -/
+example : translateNumbers "aä\n€b c\nxy\n".toList "ab c\nxy".toList [1, -5, 6, 7, 8, 9, 10] [0, 5] 1 4
+    = some { lin := 2, col := 4, flag := false } := by decide
+example : translateNumbers "aä\n€b c\nxy\n".toList "ab c\nxy".toList [1, -5, 6, 8, 8, 9, 10] [0, 5] 1 4
+    = some { lin := 3, col := 1, flag := false } := by decide
 
 end Yalafi
